@@ -32,7 +32,6 @@ Qed.
 
 (* what handle_timeout can do *)
 Lemma handle_timeout_cases c s :
-  handle_timeout c s = Panic PS_sub_overflow \/
   exists s1 o, handle_timeout c s = Ok (s1, o) /\
     ka_enabled s1 = ka_enabled s /\ ka_timeout s1 = ka_timeout s /\ read_timeout s1 = read_timeout s /\
     dsp_timeout s1 = dsp_timeout s /\ now s1 = now s /\
@@ -44,16 +43,14 @@ Proof.
   unfold handle_timeout.
   destruct (read_timeout s) eqn:RT.
   - destruct (cfg_rr c) as [p|].
-    + unfold sub_chk. destruct (read_remains_prev s <=? read_remains s); [|left; reflexivity].
-      cbn [bind]. right.
-      destruct (rr_rate p <? read_remains s - read_remains_prev s).
+    + destruct (rr_rate p <? read_remains s - read_remains_prev s).
       * destruct ((rr_max p =? 0) || negb _) eqn:E.
         -- eexists _, _. split; [reflexivity|]. unfold start_timer, set_timer. cbn.
            repeat split; auto.
         -- eexists _, _. split; [reflexivity|]. cbn. repeat split; auto. right. left. auto.
       * eexists _, _. split; [reflexivity|]. cbn. repeat split; auto. right. left. auto.
-    + right. eexists _, _. split; [reflexivity|]. repeat split; auto.
-  - right. destruct (ka_timeout s) eqn:KT.
+    + eexists _, _. split; [reflexivity|]. repeat split; auto.
+  - destruct (ka_timeout s) eqn:KT.
     + eexists _, _. split; [reflexivity|]. cbn. repeat split; auto. right. right. auto.
     + eexists _, _. split; [reflexivity|]. repeat split; auto.
 Qed.
@@ -69,7 +66,7 @@ Proof.
   intros E K. unfold update_timer.
   destruct item; [cbn; auto|].
   destruct (read_timeout s); [cbn; auto|].
-  destruct ((read_remains s =? 0) && (r =? 0)).
+  destruct (((read_remains s =? 0) && (r =? 0)) || match cfg_rr c with None => true | Some _ => false end).
   - rewrite E. cbn. auto.
   - destruct (cfg_rr c); [unfold start_timer, set_timer; cbn; auto | auto].
 Qed.
@@ -85,8 +82,7 @@ Proof.
     destruct item.
     + injection H as <- <-. destruct (update_timer_ka_off c s true remains E K). auto.
     + destruct (dsp_timeout s).
-      * destruct (handle_timeout_cases c (clear_dsp s)) as [P | (s2 & o2 & HT & E2 & K2 & R2 & _ & _ & Cs)];
-          [rewrite P in H; discriminate|].
+      * destruct (handle_timeout_cases c (clear_dsp s)) as (s2 & o2 & HT & E2 & K2 & R2 & _ & _ & Cs).
         rewrite HT in H. cbn [bind] in H. cbn in E2, K2.
         assert (NK : ~ In StopKeepAlive o2).
         { destruct Cs as [(-> & _) | [(-> & _) | (_ & _ & KT & _)]].
@@ -101,8 +97,7 @@ Proof.
   - (* Timeout *)
     destruct (stopped s); [injection H as <- <-; auto|].
     destruct (dsp_timeout s); [|injection H as <- <-; auto].
-    destruct (handle_timeout_cases c (clear_dsp s)) as [P | (s2 & o2 & HT & E2 & K2 & R2 & _ & _ & Cs)];
-      [rewrite P in H; discriminate|].
+    destruct (handle_timeout_cases c (clear_dsp s)) as (s2 & o2 & HT & E2 & K2 & R2 & _ & _ & Cs).
     rewrite HT in H. injection H as <- <-. cbn in E2, K2. rewrite E2, K2. repeat split; auto.
     destruct Cs as [(-> & _) | [(-> & _) | (_ & _ & KT & _)]].
     + intros [].
@@ -188,8 +183,14 @@ Lemma ka_zero_disables_refuted :
 Proof. eexists. vm_compute. reflexivity. Qed.
 
 (* ---------------------------------------------------------------- C20_idle_times_out *)
-Definition idle_ev (e : tevent) : bool :=
-  match e with Tick => true | Recv false _ => true | _ => false end.
+(* idle: seconds pass and polls that decode no frame; with the read-rate rule on, polls that find
+   nothing buffered (a buffered partial frame is then governed by the read-rate rule) *)
+Definition idle_ev (c : tcfg) (e : tevent) : bool :=
+  match e with
+  | Tick => true
+  | Recv false r => match cfg_rr c with None => true | Some _ => r =? 0 end
+  | _ => false
+  end.
 Definition is_tick (e : tevent) : bool := match e with Tick => true | _ => false end.
 Definition ticks (evs : list tevent) : N := N.of_nat (length (filter is_tick evs)).
 
@@ -198,27 +199,31 @@ Definition armed (s : tstate) (dl : N) : Prop :=
   timer s = Some dl.
 
 Lemma idle_step c s dl e :
-  cfg_rr c = None -> armed s dl -> idle_ev e = true ->
-  exists s1, timer_step c s e = Ok (s1, []) /\ armed s1 dl /\
+  (cfg_rr c = None \/ read_remains s = 0) -> armed s dl -> idle_ev c e = true ->
+  exists s1, timer_step c s e = Ok (s1, []) /\ armed s1 dl /\ read_remains s1 = read_remains s /\
              now s1 = now s + (if is_tick e then 1 else 0).
 Proof.
   intros RR (S & K & R & D & T) I. destruct e; try discriminate I.
   - destruct item; [discriminate I|]. cbn [timer_step]. rewrite S, D.
-    exists s. unfold update_timer. rewrite R, K, RR, andb_false_r.
-    destruct ((read_remains s =? 0) && (remains =? 0)); cbn [is_tick]; rewrite N.add_0_r;
-      repeat split; auto.
+    exists s. cbn [is_tick]. rewrite N.add_0_r. unfold update_timer. rewrite R, K, andb_false_r.
+    cbn [idle_ev] in I.
+    destruct (cfg_rr c) as [p|] eqn:C.
+    + apply N.eqb_eq in I. subst remains. destruct RR as [RR|RR]; [discriminate|].
+      rewrite RR. cbn. repeat split; auto.
+    + rewrite orb_true_r. repeat split; auto.
   - eexists. cbn [timer_step]. split; [reflexivity|]. unfold armed. cbn. repeat split; auto.
 Qed.
 
 Lemma idle_run c evs : forall s dl,
-  cfg_rr c = None -> armed s dl -> forallb idle_ev evs = true ->
+  (cfg_rr c = None \/ read_remains s = 0) -> armed s dl -> forallb (idle_ev c) evs = true ->
   exists s1, t_run c s evs = Ok (s1, []) /\ armed s1 dl /\ now s1 = now s + ticks evs.
 Proof.
   induction evs as [|e r IH]; intros s dl RR A I.
   - exists s. cbn. unfold ticks. cbn. rewrite N.add_0_r. auto.
   - cbn [forallb] in I. apply andb_true_iff in I as [I1 I2].
-    destruct (idle_step c s dl e RR A I1) as (s1 & ST & A1 & N1).
-    destruct (IH s1 dl RR A1 I2) as (s2 & TR & A2 & N2).
+    destruct (idle_step c s dl e RR A I1) as (s1 & ST & A1 & RM1 & N1).
+    assert (RR1 : cfg_rr c = None \/ read_remains s1 = 0) by (destruct RR; [auto | right; congruence]).
+    destruct (IH s1 dl RR1 A1 I2) as (s2 & TR & A2 & N2).
     exists s2. rewrite t_run_cons, ST, TR. cbn [app]. split; [reflexivity|]. split; [exact A2|].
     rewrite N2, N1. unfold ticks. cbn [filter]. destruct (is_tick e); cbn [length]; lia.
 Qed.
@@ -236,7 +241,7 @@ Proof.
 Qed.
 
 Lemma idle_times_out c s dl evs :
-  cfg_rr c = None -> armed s dl -> forallb idle_ev evs = true ->
+  (cfg_rr c = None \/ read_remains s = 0) -> armed s dl -> forallb (idle_ev c) evs = true ->
   exists s1, t_run c s evs = Ok (s1, []) /\ timer s1 = Some dl /\ now s1 = now s + ticks evs /\
     (dl <= now s1 -> forall r, exists s2,
        t_run c s1 [TimerFired; Recv false r] = Ok (s2, [StopKeepAlive]) /\ stopped s2 = true /\ timer s2 = None).
@@ -253,67 +258,40 @@ Lemma init_arms c : cfg_ka c <> 0 ->
 Proof.
   intros K. destruct c as [ka rr]. cbn [cfg_ka] in *. apply N.eqb_neq in K.
   unfold t_run, timer_step, t_init, update_timer, start_timer, set_timer. cbn. rewrite K. cbn.
-  rewrite N.eqb_refl. cbn [andb]. eexists. split; [reflexivity|].
+  rewrite N.eqb_refl. cbn [andb orb]. eexists. split; [reflexivity|].
   unfold armed. cbn. rewrite N.add_0_l. repeat split; reflexivity.
 Qed.
 
-(* a frame followed in the same read by the first byte of the next one clears KA_TIMEOUT and leaves
-   nothing that would set it again: with the read-rate rule off the connection can stay idle forever *)
-Definition silence (e : tevent) : bool :=
-  match e with Tick | TimerFired => true | Recv false 1 => true | _ => false end.
+(* after a frame (KA_TIMEOUT cleared) the next poll that decodes no frame arms the keep-alive timer
+   again -- with the read-rate rule off whatever is buffered (a67d067), with it on when nothing is *)
+Definition after_frame (s : tstate) : Prop :=
+  stopped s = false /\ ka_enabled s = true /\ ka_timeout s = false /\ read_timeout s = false /\
+  read_remains s = 0 /\ dsp_timeout s = false.
 
-Definition unarmed (s : tstate) : Prop :=
-  stopped s = false /\ ka_timeout s = false /\ read_timeout s = false /\ read_remains s = 0.
-
-Lemma silence_step c s e :
-  cfg_rr c = None -> unarmed s -> silence e = true ->
-  exists s1, timer_step c s e = Ok (s1, []) /\ unarmed s1.
+Lemma frame_clears c s r :
+  stopped s = false -> ka_enabled s = true -> dsp_timeout s = false ->
+  exists s1, timer_step c s (Recv true r) = Ok (s1, []) /\ after_frame s1 /\ timer s1 = timer s /\ now s1 = now s.
 Proof.
-  intros RR (S & K & R & RM) Q. unfold unarmed.
-  destruct e as [item r| | | | | |]; try discriminate Q.
-  - destruct item; [discriminate Q|].
-    destruct r as [|[| |]]; try discriminate Q.
-    cbn [timer_step]. rewrite S.
-    assert (U : forall t, stopped t = false -> ka_timeout t = false -> read_timeout t = false ->
-                          read_remains t = 0 -> update_timer c t false 1 = t).
-    { intros t _ _ R' RM'. unfold update_timer. rewrite R', RM', RR. reflexivity. }
-    destruct (dsp_timeout s) eqn:D.
-    + unfold handle_timeout, clear_dsp. cbn [read_timeout ka_timeout]. rewrite R, K. cbn [bind stopped].
-      rewrite S. rewrite U; cbn; auto. eexists. split; [reflexivity|]. cbn. auto.
-    + rewrite U; auto. eexists. split; [reflexivity|]. auto.
-  - eexists. cbn [timer_step]. split; [reflexivity|]. cbn. auto.
-  - cbn [timer_step]. destruct (timer s) as [dl|]; [destruct (dl <=? now s)|];
-      eexists; (split; [reflexivity|]); cbn; auto.
+  intros S E D. cbn [timer_step]. rewrite S. eexists. split; [reflexivity|].
+  unfold after_frame, update_timer. cbn. auto 10.
 Qed.
 
-Lemma silence_run c evs : forall s,
-  cfg_rr c = None -> unarmed s -> forallb silence evs = true ->
-  exists s1, t_run c s evs = Ok (s1, []) /\ unarmed s1.
+Lemma partial_frame_arms_keepalive c s r :
+  cfg_ka c <> 0 -> (cfg_rr c = None \/ r = 0) -> after_frame s ->
+  exists s1 dl, timer_step c s (Recv false r) = Ok (s1, []) /\ armed s1 dl /\
+                now s + cfg_ka c <= dl <= now s + cfg_ka c + 1.
 Proof.
-  induction evs as [|e r IH]; intros s RR U Q.
-  - exists s. cbn. auto.
-  - cbn [forallb] in Q. apply andb_true_iff in Q as [Q1 Q2].
-    destruct (silence_step c s e RR U Q1) as (s1 & ST & U1).
-    destruct (IH s1 RR U1 Q2) as (s2 & TR & U2).
-    exists s2. rewrite t_run_cons, ST, TR. auto.
-Qed.
-
-Lemma idle_partial_never_times_out ka evs :
-  ka <> 0 -> forallb silence evs = true ->
-  let c := mkTcfg ka None in
-  exists s, t_run c (t_init c) ([Recv false 0; Recv true 1; Recv false 1] ++ evs) = Ok (s, []) /\
-            stopped s = false.
-Proof.
-  intros K Q c.
-  assert (P : exists s0, t_run c (t_init c) [Recv false 0; Recv true 1; Recv false 1] = Ok (s0, []) /\ unarmed s0).
-  { apply N.eqb_neq in K. unfold c.
-    unfold t_run, timer_step, t_init, update_timer, start_timer, set_timer. cbn. rewrite K. cbn.
-    rewrite N.eqb_refl. cbn [andb]. cbn. rewrite N.eqb_refl.
-    change (1 =? 0) with false. cbn [andb].
-    eexists. split; [reflexivity|]. unfold unarmed. cbn. auto. }
-  destruct P as (s0 & TR0 & U0).
-  destruct (silence_run c evs s0 eq_refl U0 Q) as (s1 & TR1 & U1).
-  exists s1. rewrite t_run_app, TR0, TR1. split; [reflexivity|]. now destruct U1.
+  intros K RR (S & E & KT & R & RM & D). apply N.eqb_neq in K.
+  cbn [timer_step]. rewrite S, D. unfold update_timer. rewrite R, RM, E, KT.
+  assert (X : (0 =? 0) && (r =? 0) || match cfg_rr c with None => true | Some _ => false end = true).
+  { destruct RR as [-> | ->]; [apply orb_true_r | reflexivity]. }
+  rewrite X. cbn [andb negb]. unfold start_timer, set_timer. cbn. rewrite K.
+  destruct (timer s) as [d0|].
+  - destruct ((d0 =? now s + cfg_ka c) || (d0 =? now s + cfg_ka c + 1)) eqn:Q.
+    + eexists _, d0. split; [reflexivity|]. unfold armed. cbn. repeat split; auto;
+        apply orb_true_iff in Q as [Q|Q]; apply N.eqb_eq in Q; lia.
+    + eexists _, _. split; [reflexivity|]. unfold armed. cbn. repeat split; auto; lia.
+  - eexists _, _. split; [reflexivity|]. unfold armed. cbn. repeat split; auto; lia.
 Qed.
 
 (* ---------------------------------------------------------------- C20_live_never_timed_out *)
@@ -328,7 +306,7 @@ Lemma update_timer_stopped c s item r : stopped (update_timer c s item r) = stop
 Proof.
   unfold update_timer. destruct item; [reflexivity|].
   destruct (read_timeout s); [reflexivity|].
-  destruct ((read_remains s =? 0) && (r =? 0)).
+  destruct (((read_remains s =? 0) && (r =? 0)) || match cfg_rr c with None => true | Some _ => false end).
   - destruct (ka_enabled s && negb (ka_timeout s)); reflexivity.
   - destruct (cfg_rr c); reflexivity.
 Qed.
@@ -343,7 +321,7 @@ Proof.
   revert S3. unfold update_timer.
   destruct (read_timeout s) eqn:R.
   - intros S3. split; [|split]; cbn; intros; try congruence.
-  - destruct ((read_remains s =? 0) && (r =? 0)).
+  - destruct (((read_remains s =? 0) && (r =? 0)) || match cfg_rr c with None => true | Some _ => false end).
     + destruct (ka_enabled s && negb (ka_timeout s)) eqn:E.
       * intros S3. split; [|split]; [| |exact S3].
         -- unfold start_timer, set_timer. cbn. rewrite CK. apply N.eqb_neq in K0. rewrite K0.
@@ -376,8 +354,7 @@ Proof.
     + injection H as <- <-. split; [intros []|]. unfold update_timer.
       split; [|split]; cbn; intros; congruence.
     + destruct (dsp_timeout s) eqn:D.
-      * destruct (handle_timeout_cases c (clear_dsp s)) as [P | (s2 & o2 & HT & E2 & K2 & R2 & D2 & N2 & Cs)];
-          [rewrite P in H; discriminate|].
+      * destruct (handle_timeout_cases c (clear_dsp s)) as (s2 & o2 & HT & E2 & K2 & R2 & D2 & N2 & Cs).
         rewrite HT in H. cbn [bind] in H. cbn in E2, K2, R2, D2, N2.
         assert (NK : ~ In StopKeepAlive o2).
         { destruct Cs as [(-> & _) | [(-> & _) | (_ & RT & KT & _)]].
@@ -397,8 +374,7 @@ Proof.
   - (* Timeout *)
     destruct (stopped s) eqn:S; [injection H as <- <-; split; [intros []|exact LI]|].
     destruct (dsp_timeout s) eqn:D; [|injection H as <- <-; split; [intros []|exact LI]].
-    destruct (handle_timeout_cases c (clear_dsp s)) as [P | (s2 & o2 & HT & E2 & K2 & R2 & D2 & N2 & Cs)];
-      [rewrite P in H; discriminate|].
+    destruct (handle_timeout_cases c (clear_dsp s)) as (s2 & o2 & HT & E2 & K2 & R2 & D2 & N2 & Cs).
     rewrite HT in H. injection H as <- <-. cbn in E2, K2, R2, D2, N2. split.
     + destruct Cs as [(-> & _) | [(-> & _) | (_ & RT & KT & _)]].
       * intros [].
@@ -458,33 +434,163 @@ Proof.
   split; [|split]; unfold t_init; cbn; intros; congruence.
 Qed.
 
+(* a frame-read timer that expires while the service is not ready is reported by poll_read_pause as
+   KeepAliveTimeout: here one second after a complete frame, keep-alive 4 *)
 Lemma live_refuted_not_ready :
-  let c := mkTcfg 2 None in
+  let c := mkTcfg 4 (Some (mkRr 1 0 0)) in
   let evs := [Recv false 0; Tick; Recv true 1; Recv false 1; Tick; TimerFired; Paused] in
-  gaps_ok 2 0 evs = true /\ exists s, t_run c (t_init c) evs = Ok (s, [StopKeepAlive]).
+  gaps_ok 4 0 evs = true /\ exists s, t_run c (t_init c) evs = Ok (s, [StopKeepAlive]).
 Proof. split; [reflexivity|]. eexists. vm_compute. reflexivity. Qed.
+
+(* with the read-rate rule off (the default) not-ready episodes are harmless as well, provided the poll
+   loop goes on after a frame (next poll_recv_decode, or the service is not ready, or stop) *)
+Fixpoint frame_followed (evs : list tevent) : bool :=
+  match evs with
+  | [] => true
+  | Recv true _ :: r =>
+    match r with
+    | [] => true
+    | Recv _ _ :: _ | Paused :: _ | Halt :: _ => frame_followed r
+    | _ => false
+    end
+  | _ :: r => frame_followed r
+  end.
+
+Definition norr_inv (ka cnt : N) (aw : bool) (s : tstate) : Prop :=
+  dsp_timeout s = false /\ read_timeout s = false /\ ka_enabled s = true /\
+  (aw = false -> forall dl, timer s = Some dl -> now s + ka <= dl + cnt) /\
+  (stopped s = true -> timer s = None) /\
+  (aw = true -> ka_timeout s = false /\ stopped s = false).
+
+Definition aw_ok (aw : bool) (e : tevent) : bool :=
+  if aw then match e with Recv _ _ | Paused | Halt => true | _ => false end else true.
+
+Definition next_cnt (cnt : N) (e : tevent) : N :=
+  match e with Tick => cnt + 1 | Recv true _ => 0 | _ => cnt end.
+Definition next_aw (s : tstate) (e : tevent) : bool :=
+  match e with Recv true _ => negb (stopped s) | _ => false end.
+
+Ltac fin := repeat split; auto; try discriminate; try (intros; congruence); try (intros; exfalso; eauto).
+
+Lemma norr_step c ka cnt aw s e s1 o :
+  cfg_ka c = ka -> cfg_rr c = None -> ka <> 0 -> cnt < ka -> is_inject e = false -> aw_ok aw e = true ->
+  norr_inv ka cnt aw s -> timer_step c s e = Ok (s1, o) ->
+  o = [] /\ norr_inv ka (next_cnt cnt e) (next_aw s e) s1.
+Proof.
+  intros CK RR K0 CL NI AW (D & R & E & I3 & I4 & I6) H. unfold norr_inv, next_aw, next_cnt.
+  assert (STOPPED : stopped s = true -> forall dl, timer s = Some dl -> False).
+  { intros S dl T. rewrite (I4 S) in T. discriminate. }
+  destruct e as [item r| | | | | |]; cbn [timer_step] in H; try discriminate NI.
+  - (* Recv *)
+    destruct (stopped s) eqn:S.
+    { injection H as <- <-. split; [reflexivity|]. destruct item; cbn [negb]; repeat split; auto;
+        try discriminate; intros; exfalso; eauto. }
+    destruct item.
+    + injection H as <- <-. split; [reflexivity|]. unfold update_timer. cbn. fin.
+    + rewrite D in H. injection H as <- <-. split; [reflexivity|].
+      unfold update_timer. rewrite R, RR, orb_true_r, E. cbn [andb].
+      destruct (ka_timeout s) eqn:KT; cbn [negb].
+      * destruct aw; [destruct (I6 eq_refl); discriminate|].
+        fin.
+      * unfold start_timer, set_timer. cbn. rewrite CK. apply N.eqb_neq in K0. rewrite K0.
+        repeat split; auto; cbn; try discriminate; try (intros; congruence).
+        -- intros _ dl T. destruct (timer s) as [d0|].
+           ++ destruct ((d0 =? now s + ka) || (d0 =? now s + ka + 1)) eqn:Q; injection T as <-;
+                [apply orb_true_iff in Q as [Q|Q]; apply N.eqb_eq in Q; lia | lia].
+           ++ injection T as <-. lia.
+  - (* Timeout *)
+    destruct aw; [discriminate AW|].
+    destruct (stopped s) eqn:S; [injection H as <- <-; split; [reflexivity|]; fin|].
+    rewrite D in H. injection H as <- <-. split; [reflexivity|]. fin.
+  - (* Paused *)
+    destruct (stopped s) eqn:S.
+    { injection H as <- <-. split; [reflexivity|]. repeat split; auto; try discriminate. intros; exfalso; eauto. }
+    unfold pause in H. cbn [dsp_timeout] in H. rewrite D in H. injection H as <- <-.
+    split; [reflexivity|]. cbn. fin.
+  - (* Halt *)
+    injection H as <- <-. split; [reflexivity|]. cbn. fin.
+  - (* Tick *)
+    destruct aw; [discriminate AW|].
+    injection H as <- <-. split; [reflexivity|]. cbn. repeat split; auto; try discriminate.
+    intros _ dl T. specialize (I3 eq_refl dl T). lia.
+  - (* TimerFired *)
+    destruct aw; [discriminate AW|].
+    assert (KEEP : norr_inv ka cnt false s) by (unfold norr_inv; fin).
+    destruct (timer s) as [dl|] eqn:T.
+    + destruct (dl <=? now s) eqn:L.
+      * exfalso. apply N.leb_le in L. specialize (I3 eq_refl dl eq_refl). lia.
+      * injection H as <- <-. split; [reflexivity|]. exact KEEP.
+    + injection H as <- <-. split; [reflexivity|]. exact KEEP.
+Qed.
+
+Lemma frame_followed_cons e r :
+  frame_followed (e :: r) = true ->
+  frame_followed r = true /\
+  (match e with Recv true _ => match r with [] => true | e2 :: _ => aw_ok true e2 end | _ => true end) = true.
+Proof.
+  destruct e as [[|] x| | | | | |]; cbn [frame_followed]; auto.
+  destruct r as [|e2 r2]; [auto|]. destruct e2; cbn [aw_ok]; auto; discriminate.
+Qed.
+
+Lemma norr_run c ka evs : forall cnt aw s s' outs,
+  cfg_ka c = ka -> cfg_rr c = None -> ka <> 0 -> cnt < ka ->
+  forallb not_inject evs = true -> frame_followed evs = true ->
+  (match evs with [] => true | e :: _ => aw_ok aw e end) = true ->
+  gaps_ok ka cnt evs = true ->
+  norr_inv ka cnt aw s -> t_run c s evs = Ok (s', outs) -> outs = [].
+Proof.
+  induction evs as [|e r IH]; intros cnt aw s s' outs CK RR K0 CL NI FF AW G INV H.
+  - cbn in H. now injection H as <- <-.
+  - cbn [forallb] in NI. apply andb_true_iff in NI as [NI1 NI2].
+    unfold not_inject in NI1. apply negb_true_iff in NI1.
+    apply frame_followed_cons in FF as [FF1 FF2].
+    rewrite t_run_cons in H.
+    destruct (timer_step c s e) as [[s1 o1]| |] eqn:ST; try discriminate.
+    destruct (t_run c s1 r) as [[s2 o2]| |] eqn:TR; try discriminate.
+    injection H as <- <-.
+    destruct (norr_step c ka cnt aw s e s1 o1 CK RR K0 CL NI1 AW INV ST) as (-> & INV1).
+    cbn [app].
+    assert (CL1 : next_cnt cnt e < ka /\ gaps_ok ka (next_cnt cnt e) r = true).
+    { destruct e as [[|] x| | | | | |]; cbn [gaps_ok next_cnt] in *; try (split; [lia | exact G]).
+      apply andb_true_iff in G as [G1 G2]. apply N.ltb_lt in G1. auto. }
+    destruct CL1 as [CL1 G1].
+    eapply (IH (next_cnt cnt e) (next_aw s e) s1); eauto.
+    destruct r as [|e2 r2]; [reflexivity|].
+    unfold next_aw. destruct e as [[|] x| | | | | |]; try reflexivity.
+    destruct (stopped s); [reflexivity | exact FF2].
+Qed.
+
+Lemma live_default_config c evs s' outs :
+  cfg_rr c = None -> cfg_ka c <> 0 -> forallb not_inject evs = true -> frame_followed evs = true ->
+  gaps_ok (cfg_ka c) 0 evs = true ->
+  t_run c (t_init c) evs = Ok (s', outs) -> outs = [].
+Proof.
+  intros RR K0 NI FF G H.
+  eapply (norr_run c (cfg_ka c) evs 0 false (t_init c)); eauto; [lia | destruct evs; reflexivity |].
+  unfold norr_inv, t_init. cbn. apply N.eqb_neq in K0. rewrite K0. cbn. repeat split; auto; discriminate.
+Qed.
 
 (* ---------------------------------------------------------------- C20_slow_frame_times_out / fast_enough_extends *)
 Definition expired_read (s : tstate) : Prop :=
   stopped s = false /\ read_timeout s = true /\ dsp_timeout s = true.
+
+(* `-` on N truncates at 0: read_remains.saturating_sub(read_remains_prev) *)
 Lemma slow_frame_times_out c p s r :
   cfg_rr c = Some p -> expired_read s ->
-  read_remains_prev s <= read_remains s ->
   read_remains s - read_remains_prev s <= rr_rate p ->
   exists s1, timer_step c s (Recv false r) = Ok (s1, [StopRead]) /\ stopped s1 = true /\ timer s1 = None.
 Proof.
-  intros RR (S & R & D) L T. destruct s as [ke kt rt rm rp mx tm dsp nw st]. cbn in *. subst.
+  intros RR (S & R & D) T. destruct s as [ke kt rt rm rp mx tm dsp nw st]. cbn in *. subst.
   unfold handle_timeout, clear_dsp. cbn. rewrite RR.
-  unfold sub_chk. apply N.leb_le in L. rewrite L. cbn [bind].
   assert (X : rr_rate p <? rm - rp = false) by (apply N.ltb_ge; lia).
   rewrite X. cbn. eexists. split; [reflexivity|]. cbn. auto.
 Qed.
+
 Definition next_max (p : rr_cfg) (s : tstate) : N :=
   if rr_max p =? 0 then read_max_timeout s else read_max_timeout s - rr_timeout p.
 
 Lemma fast_enough_extends c p s r :
   cfg_rr c = Some p -> expired_read s -> timer s = None ->
-  read_remains_prev s <= read_remains s ->
   rr_rate p < read_remains s - read_remains_prev s ->
   (rr_max p = 0 \/ next_max p s <> 0) ->
   exists s1, timer_step c s (Recv false r) = Ok (s1, []) /\ stopped s1 = false /\
@@ -492,9 +598,8 @@ Lemma fast_enough_extends c p s r :
     read_remains_prev s1 = read_remains s /\ read_remains s1 = r mod U32 /\
     read_max_timeout s1 = next_max p s /\ read_timeout s1 = true.
 Proof.
-  intros RR (S & R & D) TN L T M. destruct s as [ke kt rt rm rp mx tm dsp nw st]. unfold next_max in *. cbn in *. subst.
+  intros RR (S & R & D) TN T M. destruct s as [ke kt rt rm rp mx tm dsp nw st]. unfold next_max in *. cbn in *. subst.
   unfold handle_timeout, clear_dsp. cbn. rewrite RR.
-  unfold sub_chk. apply N.leb_le in L. rewrite L. cbn [bind].
   apply N.ltb_lt in T. rewrite T.
   assert (X : (rr_max p =? 0) || negb ((if rr_max p =? 0 then mx else mx - rr_timeout p) =? 0) = true).
   { destruct M as [M | M].
@@ -506,165 +611,47 @@ Qed.
 
 Lemma max_timeout_exhausted c p s r :
   cfg_rr c = Some p -> expired_read s ->
-  read_remains_prev s <= read_remains s ->
   rr_rate p < read_remains s - read_remains_prev s ->
   rr_max p <> 0 -> next_max p s = 0 ->
   exists s1, timer_step c s (Recv false r) = Ok (s1, [StopRead]) /\ stopped s1 = true /\ timer s1 = None.
 Proof.
-  intros RR (S & R & D) L T M0 M. destruct s as [ke kt rt rm rp mx tm dsp nw st]. unfold next_max in *. cbn in *. subst.
+  intros RR (S & R & D) T M0 M. destruct s as [ke kt rt rm rp mx tm dsp nw st]. unfold next_max in *. cbn in *. subst.
   unfold handle_timeout, clear_dsp. cbn. rewrite RR.
-  unfold sub_chk. apply N.leb_le in L. rewrite L. cbn [bind].
   apply N.ltb_lt in T. rewrite T. apply N.eqb_neq in M0. rewrite M0 in *.
   rewrite M. cbn. eexists. split; [reflexivity|]. cbn. auto.
 Qed.
 
 (* ---------------------------------------------------------------- C20_no_underflow *)
-Definition rd_ok (last : N) (s : tstate) : Prop :=
-  read_timeout s = true -> read_remains_prev s <= read_remains s /\ read_remains s <= last.
-Definition uf_inv (last : N) (s : tstate) : Prop := stopped s = false -> rd_ok last s.
-
-Lemma handle_timeout_ok c s last :
-  rd_ok last s ->
-  exists s1 o, handle_timeout c s = Ok (s1, o) /\
-    (stopped s1 = false -> read_timeout s1 = true -> read_remains_prev s1 <= last) /\
-    dsp_timeout s1 = dsp_timeout s.
+(* since 4dba145 the subtraction saturates: no event sequence from any state makes the machine panic *)
+Lemma step_total c s e : exists r, timer_step c s e = Ok r.
 Proof.
-  intros U. unfold handle_timeout. destruct (read_timeout s) eqn:R.
-  - destruct (U R) as [L1 L2].
-    destruct (cfg_rr c) as [p|].
-    + unfold sub_chk. apply N.leb_le in L1. rewrite L1. cbn [bind]. apply N.leb_le in L1.
-      destruct (rr_rate p <? _).
-      * destruct (_ || _); eexists _, _; (split; [reflexivity|]); unfold start_timer, set_timer; cbn;
-          split; auto; intros; try discriminate; lia.
-      * eexists _, _. split; [reflexivity|]. cbn. split; auto. intros; discriminate.
-    + eexists _, _. split; [reflexivity|]. split; auto. intros. lia.
-  - destruct (ka_timeout s); eexists _, _; (split; [reflexivity|]); cbn; split; auto; intros; congruence.
+  destruct e as [item r| | | | | |]; cbn [timer_step]; try (eexists; reflexivity).
+  - destruct (stopped s); [eexists; reflexivity|]. destruct item; [eexists; reflexivity|].
+    destruct (dsp_timeout s); [|eexists; reflexivity].
+    destruct (handle_timeout_cases c (clear_dsp s)) as (s1 & o & -> & _). cbn [bind].
+    destruct (stopped s1); eexists; reflexivity.
+  - destruct (stopped s); [eexists; reflexivity|]. destruct (dsp_timeout s); [|eexists; reflexivity].
+    destruct (handle_timeout_cases c (clear_dsp s)) as (s1 & o & -> & _). eexists; reflexivity.
+  - destruct (stopped s); eexists; reflexivity.
+  - destruct (timer s) as [dl|]; [destruct (dl <=? now s)|]; eexists; reflexivity.
 Qed.
 
-Lemma update_timer_rd c s r last :
-  last <= r -> r < U32 ->
-  (read_timeout s = true -> read_remains_prev s <= last) ->
-  rd_ok r (update_timer c s false r).
+Lemma no_underflow c evs : forall s, exists r, t_run c s evs = Ok r.
 Proof.
-  intros L B P. unfold update_timer, rd_ok.
-  destruct (read_timeout s) eqn:R.
-  - cbn. intros _. rewrite N.mod_small by exact B. specialize (P eq_refl). lia.
-  - destruct ((read_remains s =? 0) && (r =? 0)).
-    + destruct (ka_enabled s && negb (ka_timeout s)); unfold start_timer, set_timer; cbn; congruence.
-    + destruct (cfg_rr c) as [p|]; [|congruence].
-      unfold start_timer, set_timer. cbn. intros _. rewrite N.mod_small by exact B. lia.
+  induction evs as [|e r IH]; intros s; [eexists; reflexivity|].
+  rewrite t_run_cons. destruct (step_total c s e) as ([s1 o1] & ->).
+  destruct (IH s1) as ([s2 o2] & ->). eexists; reflexivity.
 Qed.
 
-Definition next_last (last : N) (e : tevent) : N := match e with Recv _ r => r | _ => last end.
-Definition ev_ok (last : N) (e : tevent) : bool :=
-  match e with
-  | Recv true r => r <? U32
-  | Recv false r => (last <=? r) && (r <? U32)
-  | _ => true
-  end.
-
-Lemma mono_cons last e t : mono last (e :: t) = ev_ok last e && mono (next_last last e) t.
-Proof. destruct e as [[|] r| | | | | |]; cbn [mono ev_ok next_last andb]; try reflexivity. Qed.
-
-Lemma step_uf c s e last :
-  is_timeout_ev e = false -> ev_ok last e = true -> uf_inv last s ->
-  exists s1 o1, timer_step c s e = Ok (s1, o1) /\ uf_inv (next_last last e) s1.
-Proof.
-  intros NT EO U. destruct e as [item r| | | | | |]; try discriminate NT; cbn [timer_step next_last].
-  - destruct (stopped s) eqn:S.
-    { eexists _, _. split; [reflexivity|]. intros S'. congruence. }
-    specialize (U S). destruct item; cbn [ev_ok] in EO.
-    + eexists _, _. split; [reflexivity|]. intros _. unfold update_timer, rd_ok. cbn. congruence.
-    + apply andb_true_iff in EO as [L B]. apply N.leb_le in L. apply N.ltb_lt in B.
-      destruct (dsp_timeout s) eqn:D.
-      * destruct (handle_timeout_ok c (clear_dsp s) last) as (s1 & o & HT & P & _); [exact U|].
-        rewrite HT. cbn [bind]. destruct (stopped s1) eqn:S1.
-        -- eexists _, _. split; [reflexivity|]. intros S'. congruence.
-        -- eexists _, _. split; [reflexivity|]. intros _. apply (update_timer_rd c s1 r last); auto.
-      * eexists _, _. split; [reflexivity|]. intros _. apply (update_timer_rd c s r last); auto.
-        intros R. destruct (U R). lia.
-  - destruct (stopped s) eqn:S.
-    + eexists _, _. split; [reflexivity|]. intros S'. congruence.
-    + unfold pause. cbn [dsp_timeout]. destruct (dsp_timeout s).
-      * eexists _, _. split; [reflexivity|]. intros S'. cbn in S'. discriminate.
-      * eexists _, _. split; [reflexivity|]. intros _ R. cbn in R. discriminate.
-  - eexists _, _. split; [reflexivity|]. intros S'. cbn in S'. discriminate.
-  - eexists _, _. split; [reflexivity|]. intros S' R. cbn in *. exact (U S' R).
-  - destruct (timer s) as [dl|]; [destruct (dl <=? now s)|]; eexists _, _; (split; [reflexivity|]);
-      intros S' R; cbn in *; exact (U S' R).
-  - eexists _, _. split; [reflexivity|]. intros S' R. cbn in *. exact (U S' R).
-Qed.
-
-Lemma timeout_paused_uf c s last :
-  uf_inv last s ->
-  exists s2 o, t_run c s [Timeout; Paused] = Ok (s2, o) /\ forall l, uf_inv l s2.
-Proof.
-  intros U. cbn [t_run timer_step].
-  destruct (stopped s) eqn:S.
-  - cbn [bind]. rewrite S. cbn [bind]. eexists _, _. split; [reflexivity|]. intros l S'. congruence.
-  - assert (X : exists s1 o1, (if dsp_timeout s then handle_timeout c (clear_dsp s) else Ok (s, [])) = Ok (s1, o1)).
-    { destruct (dsp_timeout s); [|eauto].
-      destruct (handle_timeout_ok c (clear_dsp s) last) as (s1 & o & HT & _); [exact (U S)|]. eauto. }
-    destruct X as (s1 & o1 & ->). cbn [bind].
-    destruct (stopped s1) eqn:S1.
-    + cbn [bind]. eexists _, _. split; [reflexivity|]. intros l S'. congruence.
-    + unfold pause. cbn [dsp_timeout]. destruct (dsp_timeout s1); cbn [bind].
-      * eexists _, _. split; [reflexivity|]. intros l S'. cbn in S'. discriminate.
-      * eexists _, _. split; [reflexivity|]. intros l _ R. cbn in R. discriminate.
-Qed.
-
-Lemma no_underflow_gen c n : forall evs last s,
-  (length evs <= n)%nat -> loop_ok evs = true -> mono last evs = true -> uf_inv last s ->
-  exists r, t_run c s evs = Ok r.
-Proof.
-  induction n as [|n IH]; intros evs last s LN LO MO U.
-  - destruct evs; [eexists; reflexivity | cbn in LN; lia].
-  - destruct evs as [|e r]; [eexists; reflexivity|].
-    cbn [length] in LN. apply le_S_n in LN.
-    destruct (is_timeout_ev e) eqn:TE.
-    + destruct e; try discriminate TE. cbn [loop_ok] in LO.
-      destruct r as [|e2 r2]; [discriminate LO|]. destruct e2; try discriminate LO.
-      cbn [mono] in MO.
-      destruct (timeout_paused_uf c s last U) as (s2 & o & TR & U2).
-      assert (LN2 : (length r2 <= n)%nat) by (cbn [length] in LN; lia).
-      destruct (IH r2 last s2 LN2 LO MO (U2 last)) as ([s3 o3] & TR3).
-      change (Timeout :: Paused :: r2) with ([Timeout; Paused] ++ r2).
-      revert TR TR3. generalize [Timeout; Paused]. intros pre TR TR3.
-      assert (A : forall a b st, t_run c st (a ++ b) =
-                match t_run c st a with
-                | Ok (s1, o1) => match t_run c s1 b with Ok (s2, o2) => Ok (s2, o1 ++ o2) | Err x => Err x | Panic x => Panic x end
-                | Err x => Err x | Panic x => Panic x end).
-      { induction a as [|x a IHa]; intros b st.
-        - cbn [app t_run]. destruct (t_run c st b) as [[? ?]| |]; reflexivity.
-        - cbn [app]. rewrite !t_run_cons. destruct (timer_step c st x) as [[s1 o1]| |]; [|reflexivity|reflexivity].
-          rewrite IHa. destruct (t_run c s1 a) as [[s4 o4]| |]; [|reflexivity|reflexivity].
-          destruct (t_run c s4 b) as [[s5 o5]| |]; [|reflexivity|reflexivity]. now rewrite app_assoc. }
-      rewrite A, TR, TR3. eauto.
-    + rewrite mono_cons in MO. apply andb_true_iff in MO as [EO MO].
-      assert (LO' : loop_ok r = true) by (destruct e; try discriminate TE; exact LO).
-      destruct (step_uf c s e last TE EO U) as (s1 & o1 & ST & U1).
-      destruct (IH r _ s1 LN LO' MO U1) as ([s2 o2] & TR).
-      rewrite t_run_cons, ST, TR. eauto.
-Qed.
-
-Lemma no_underflow c evs :
-  loop_ok evs = true -> mono 0 evs = true -> exists r, t_run c (t_init c) evs = Ok r.
-Proof.
-  intros LO MO. apply (no_underflow_gen c (length evs) evs 0 (t_init c)); auto.
-  intros _ R. unfold t_init in R. cbn in R. discriminate.
-Qed.
-
-Lemma no_underflow_refuted_header :
+(* the two sequences that made the subtraction underflow before 4dba145 (header consumed by the
+   decoder; write back-pressure in the poll that extended the timer) now end in a read timeout *)
+Lemma former_underflow_sequences :
   let c := mkTcfg 0 (Some (mkRr 1 0 0)) in
-  let evs := [Recv false 1; Tick; TimerFired; Recv false 1; Recv false 0; Tick; TimerFired; Recv false 0] in
-  loop_ok evs = true /\ t_run c (t_init c) evs = Panic PS_sub_overflow.
-Proof. split; vm_compute; reflexivity. Qed.
-
-Lemma no_underflow_refuted_backpressure :
-  let c := mkTcfg 0 (Some (mkRr 1 0 0)) in
-  let evs := [Recv false 3; Tick; TimerFired; Timeout; Tick; TimerFired; Recv false 3] in
-  mono 0 evs = true /\ t_run c (t_init c) evs = Panic PS_sub_overflow.
-Proof. split; vm_compute; reflexivity. Qed.
+  (exists s, t_run c (t_init c) [Recv false 1; Tick; TimerFired; Recv false 1; Recv false 0; Tick; TimerFired;
+                                 Recv false 0] = Ok (s, [StopRead])) /\
+  (exists s, t_run c (t_init c) [Recv false 3; Tick; TimerFired; Timeout; Tick; TimerFired; Recv false 3]
+             = Ok (s, [StopRead])).
+Proof. split; eexists; vm_compute; reflexivity. Qed.
 
 (* ---------------------------------------------------------------- C20_keepalive_factor *)
 Lemma keepalive_factor ka :
